@@ -41,16 +41,34 @@ Lines (written by harness/eng_text.go):
   D <rep> / DC <rep>                       node dump of root / clone
   L <rep>                                  live UTF-16 length and `String()` of the clone's text
   P <rep> <from> <to>                      `CreateRange(from,to)` on the clone → the two positions
+  GC <rep> <vv>                            (C03, harness arg gc=1) `Document.GarbageCollect(vv)` ran on
+                                           rep (inside ApplyChangePack with the server's min vector, or
+                                           directly with a too-large vector in the malformed share):
+                                           clone and root purge (`Text.purge` + `Text.purgeAttrs` with
+                                           the side's registration table)                → ok
+  G <rep> / GX <rep> <vv>                  API-level (harness only)                      → (nothing)
+Each side keeps the attribute part of `gcNodePairMap` (`Text.AttrReg`): `Style.Execute` toggles it
+(`regStyle`), a rebuilt side (RC / SNAP) re-registers from its graph (`regRebuild`).
 -/
 import YorkieModel.Driver.Proto
 import YorkieModel.Model.Text
+import YorkieModel.Model.TextGc
 namespace Yorkie.Driver.TextEngine
 open Yorkie Yorkie.Driver Yorkie.Text
 
 structure Side where
   tc : Option Ticket := none      -- createdAt of the Text element; none = not created yet
   st : TextSt := Text.init
+  reg : AttrReg := []             -- registered attribute tombstones (`gcNodePairMap`, attribute part)
 deriving Inhabited
+
+/-- a side rebuilt by `NewRoot` (DeepCopy / snapshot decode) registers from its graph -/
+def rebuilt (x : Side) : Side := { x with reg := regRebuild x.st }
+
+def gcSide (vv : VV) (x : Side) : Side :=
+  let st1 := purge vv x.st
+  let r := purgeAttrs vv x.reg st1
+  { x with st := r.1, reg := r.2 }
 
 structure Rep where
   root : Side := {}
@@ -124,7 +142,7 @@ def marshalDoc (x : Side) : String :=
 def applyOp (x : Side) (toks : List String) : Option (Except Err Side) :=
   let t := parseTicket (arg toks "t")
   match toks with
-  | "new" :: _ => some (.ok { tc := some t, st := Text.init })
+  | "new" :: _ => some (.ok { tc := some t, st := Text.init, reg := [] })
   | "edit" :: _ =>
     if arg toks "spans" != "0" then some (.error .unsupported) else
     if some (parseTicket (arg toks "p")) != x.tc then some (.error .notFound) else
@@ -141,7 +159,10 @@ def applyOp (x : Side) (toks : List String) : Option (Except Err Side) :=
     | some fr, some to =>
       match styleOp fr to (parseKVs (arg toks "attrs")) (parseKeys (arg toks "rem")) t
           (parseOptVV (arg toks "vv")) x.st with
-      | .ok st' => some (.ok { x with st := st' })
+      | .ok st' =>
+        let reg' := regStyle fr to (parseKVs (arg toks "attrs")) (parseKeys (arg toks "rem")) t
+          (parseOptVV (arg toks "vv")) x.st x.reg
+        some (.ok { x with st := st', reg := reg' })
       | .error e => some (.error e)
     | _, _ => none
   | _ => none
@@ -158,13 +179,18 @@ def step (s : St) (toks : List String) : St × List String :=
   | "Q" :: _ => (s, [])
   | "F" :: _ => (s, [])
   | "SN" :: _ => (s, [])
+  | "G" :: _ => (s, [])
+  | "GX" :: _ => (s, [])
+  | ["GC", r, vv] =>
+    let x := getRep s r
+    (setRep s r { root := gcSide (parseVV vv) x.root, clone := gcSide (parseVV vv) x.clone }, ["ok"])
   -- rebuilt texts: a copy is the identity on the model state (see the header)
   | ["RC", r] =>
     let x := getRep s r
-    (setRep s r { x with clone := x.root }, ["ok"])
+    (setRep s r { x with clone := rebuilt x.root }, ["ok"])
   | ["SNAP", src, dst] =>
     let x := getRep s src
-    (setRep s dst { root := x.root, clone := x.root }, ["ok"])
+    (setRep s dst { root := rebuilt x.root, clone := rebuilt x.root }, ["ok"])
   | "OP" :: r :: side :: rest =>
     let x := getRep s r
     match applyOp (getSide x side) rest with
